@@ -346,6 +346,24 @@ func baseC03(g *Gen, seed, index uint64) *Plan {
 		op.Force = false
 		p.Steps = append(p.Steps, Step{Op: &op})
 	}
+	if g.Chance(0.06) {
+		// a re-install that finds resources of its own already in the cluster (kept by the resource policy across an
+		// uninstall --keep-history): install then goes through its update path instead of plain creation
+		for ci := range p.Charts {
+			for si := range p.Charts[ci].Slots {
+				if s := &p.Charts[ci].Slots[si]; s.Hook == nil && s.Kind != "" && s.Kind != "Namespace" {
+					s.Keep = "keep"
+					break
+				}
+			}
+		}
+		re := OpSpec{Op: "install", Chart: g.N(len(p.Charts)), Replace: true, Atomic: g.Chance(0.4), Wait: g.Chance(0.5), TimeoutS: 60, Values: g.UserValues()}
+		p.Steps = []Step{
+			{Op: &OpSpec{Op: "install", Chart: 0, TimeoutS: 60}},
+			{Op: &OpSpec{Op: "uninstall", KeepHistory: true, TimeoutS: 60}},
+			{Op: &re},
+		}
+	}
 	p.Policy = "uniform"
 	p.Schedule = g.Schedule(32)
 	return p
